@@ -83,7 +83,8 @@ class ProcEnv:
         reg = TaskRegistry()
         for n, t in self.tasks.items():
             reg.register(n, t)
-        hc = HandlerConfig(task_backoff_min_delay_ms=1, task_backoff_max_delay_ms=2, handler_retry_delay_seconds=0.001)
+        hc = HandlerConfig(task_backoff_min_delay_ms=1, task_backoff_max_delay_ms=2, handler_retry_delay_seconds=0.001,
+                           concurrency_min_delay_ms=1, concurrency_max_delay_ms=2)
         cfg = proc_config if proc_config is not None else self.proc_config
         return QueueProcessor(self.queue, config=cfg, store=self.store, task_registry=reg, handler_config=hc,
                               circuit_factory=PassThroughCircuits() if self.pass_circuit else None)
@@ -134,6 +135,46 @@ class ProcEnv:
         if outcome == "killed":
             self.restart()
         return outcome, n
+
+    def handle_with_concurrent_writer(self, m, k: int, stage_id: str) -> int:
+        """process_one's success path on `m`, while a second client (own thread = own connection) commits a write to the
+        stage row `stage_id` (context key `ext` bumped through the real read-modify-`store_stage`, so the version moves)
+        right after the k-th `retrieve_stage` call the handler makes in this delivery.  Returns how many injections ran
+        (0 when the handler made fewer than k such calls)."""
+        import threading
+
+        from stabilize.persistence.connection import ConnectionManager
+
+        store = self.store
+        orig = store.retrieve_stage
+        state = {"calls": 0, "done": 0}
+        main = threading.current_thread()
+        conn = ConnectionManager().get_sqlite_connection(self.url)
+
+        def other_client() -> None:
+            st = orig(stage_id)
+            st.context["ext"] = int(st.context.get("ext", 0)) + 1
+            store.store_stage(st)
+
+        def wrapped(sid, *a, **kw):  # noqa: ANN001
+            res = orig(sid, *a, **kw)
+            if threading.current_thread() is main:
+                state["calls"] += 1
+                # only where this client holds no SQLite lock (a writer would just block until our commit otherwise)
+                if state["calls"] >= k and not state["done"] and not conn.in_transaction:
+                    th = threading.Thread(target=other_client)
+                    th.start()
+                    th.join(30)
+                    state["done"] += 1
+            return res
+
+        store.retrieve_stage = wrapped
+        try:
+            self.processor._handle_message(m)
+            self.queue.ack(m)
+        finally:
+            del store.retrieve_stage
+        return state["done"]
 
     def restart(self) -> None:
         """the worker process is gone: its connection (with whatever transaction was open) is closed, volatile state
